@@ -32,6 +32,7 @@ type vCliCarrier struct {
 	sendErr  error
 	sends    int
 	drainBlk int
+	onSend   func(m *tunnelpb.ClientToServer) // runs when a frame has reached the wire
 }
 
 func vNewCliCarrier(ctx context.Context) *vCliCarrier {
@@ -47,6 +48,9 @@ func (c *vCliCarrier) Send(m *tunnelpb.ClientToServer) error {
 		return c.sendErr
 	}
 	c.sent = append(c.sent, m)
+	if c.onSend != nil {
+		c.onSend(m)
+	}
 	return nil
 }
 
@@ -316,7 +320,7 @@ func verifH_Negotiate() {
 	car.hold = true
 	serverSends := verifBool("serverSendsSettings")
 	opts := &tunnelOpts{disableFlowControl: verifBool("disableFlowControl")}
-	shape := verifChoice("first", 4)
+	shape := verifChoice("first", 5)
 	var revs []tunnelpb.ProtocolRevision
 	fid := verifI64("fid")
 	win := verifU32("window")
@@ -335,8 +339,11 @@ func verifH_Negotiate() {
 	case 3: // the carrier fails before anything arrives
 		car.failNow = true
 		car.endErr = errors.New("carrier failed")
+	case 4: // the peer ends the stream cleanly before sending anything
+		car.failNow = true
+		car.endErr = io.EOF
 	}
-	if !serverSends && shape != 3 {
+	if !serverSends && shape < 3 {
 		// towards a legacy peer nothing is consumed for negotiation
 		car.script = nil
 	}
@@ -351,7 +358,7 @@ func verifH_Negotiate() {
 		verifCover("legacy-peer")
 		verifAssert(useRev == tunnelpb.ProtocolRevision_REVISION_ZERO, "C11.legacy-peer-revision-zero")
 		verifAssert(settings == nil, "C11.legacy-peer-no-settings")
-		if shape != 3 {
+		if shape < 3 {
 			verifAssert(!finished, "C11.legacy-peer-channel-usable")
 		}
 	} else {
@@ -381,6 +388,9 @@ func verifH_Negotiate() {
 		} else {
 			verifCover("refused")
 			verifAssert(finished && cerr != nil && cerr != io.EOF, "C04+C09+C11.bad-settings-fail-the-tunnel")
+			if shape == 4 {
+				verifCover("ended-before-settings")
+			}
 			verifAssert(c.Err() != nil, "C04+C11.bad-settings-err-visible")
 			verifAssert(!vChanOpenRO(c.Done()), "C04+C11.bad-settings-done-closed")
 			verifAssert(tornDown >= 1, "C04.bad-settings-teardown-ran")
@@ -484,7 +494,16 @@ func verifH_NewStream() {
 	}
 	cs, ss := verifBool("clientStreams"), verifBool("serverStreams")
 	method := "/svc/method"
+	// the peer may answer the instant the new_stream frame is on the wire: the receive
+	// loop must find the stream then (and not take the frame for one it has disposed of)
+	car.onSend = func(m *tunnelpb.ClientToServer) {
+		if _, isNew := m.Frame.(*tunnelpb.ClientToServer_NewStream); isNew {
+			found, gerr := c.getStream(m.StreamId)
+			verifAssert(gerr == nil && found != nil && found.streamID == m.StreamId, "C01+C08.frames-arriving-right-after-new-stream-reach-the-rpc")
+		}
+	}
 	str, err := c.newStream(ctx, cs, ss, method, opts...)
+	car.onSend = nil
 
 	if by != nil {
 		by.untouched(c, "alloc")
